@@ -258,14 +258,24 @@ static uint64_t get_next_mclk_timestamp(void)
     return mclk_timestamp;
 }
 
-static uint64_t mclk_lookup(uint32_t avtp_time)
+/* Looks for the media clock timestamp that matches 'avtp_time'. The search is
+ * limited to one second worth of media clock periods so that an AAF PDU whose
+ * timestamp is not on the media clock grid cannot stall the listener.
+ */
+static bool mclk_lookup(uint32_t avtp_time, uint64_t *mclk_timestamp)
 {
-    uint64_t mclk_timestamp = get_next_mclk_timestamp();
+    uint64_t timestamp;
+    unsigned int i;
 
-    while (mclk_timestamp % (1ULL << 32) != avtp_time)
-        mclk_timestamp = get_next_mclk_timestamp();
+    for (i = 0; i < NSEC_PER_SEC / MCLK_PERIOD; i++) {
+        timestamp = get_next_mclk_timestamp();
+        if (timestamp % (1ULL << 32) == avtp_time) {
+            *mclk_timestamp = timestamp;
+            return true;
+        }
+    }
 
-    return mclk_timestamp;
+    return false;
 }
 
 static bool is_valid_crf_pdu(struct avtp_crf_pdu *pdu)
@@ -701,6 +711,7 @@ static int handle_aaf_pdu(struct avtp_stream_pdu *pdu)
     bool state;
     uint64_t val;
     uint32_t avtp_time, mclk_time;
+    uint64_t mclk_timestamp;
 
     if (!is_valid_aaf_pdu(pdu))
         return 0;
@@ -713,7 +724,11 @@ static int handle_aaf_pdu(struct avtp_stream_pdu *pdu)
     avtp_time = val;
 
     if (need_mclk_lookup) {
-        mclk_time = mclk_lookup(avtp_time);
+        if (!mclk_lookup(avtp_time, &mclk_timestamp)) {
+            fprintf(stderr, "AAF: AVTP time does not match the media clock, dropping PDU\n");
+            return 0;
+        }
+        mclk_time = mclk_timestamp;
         need_mclk_lookup = false;
     } else {
         mclk_time = get_next_mclk_timestamp();
